@@ -317,7 +317,8 @@ func TestC19(t *testing.T) {
 			}
 			if kind >= 1 {
 				nrec := rapid.IntRange(1, 3).Draw(t, "nrec")
-				prios := rapid.Permutation([]int{1, 2, 3}).Draw(t, "prios")
+				// distinct priorities, sometimes far apart in the 16-bit range
+				prios := rapid.Permutation([][]int{{1, 2, 3}, {1, 2, 3}, {1, 40000, 65535}, {2, 32768, 32770}, {1, 32769, 3}}[rapid.IntRange(0, 4).Draw(t, "prio_set")]).Draw(t, "prios")
 				for k := 0; k < nrec; k++ {
 					h := dns.HTTPS{Priority: uint16(prios[k])}
 					h.ALPN = [][]string{nil, {"h2"}, {"h3"}, {"h3", "h2"}, {"http/1.1"}, {"other"}, {"h2", "http/1.1"}, {"h3", "other"}}[rapid.IntRange(0, 7).Draw(t, "alpn")]
